@@ -1,3 +1,103 @@
-//! Solver harnesses mounted into rs-matter/src/fabric.rs
+//! C05 - fabric-level dispatch of the access decision (`Fabrics::allow`). Mounted into
+//! rs-matter/src/fabric.rs. The per-entry decision (`AclEntry::allow`) is replaced by a
+//! recording oracle here; it is checked against the reference algorithm in kani/acl.rs.
 #![allow(unused_imports, dead_code)]
 use super::*;
+use crate::acl::{AccessReq, Accessor, AccessorSubjects, AclEntry, AuthMode};
+use crate::dm::{Access, Privilege};
+use crate::im::GenericPath;
+use crate::verif_support::*;
+use crate::{vassert, vcover, vok};
+
+static mut E_CALLS: u32 = 0;
+static mut E_ANS: [bool; 4] = [false; 4];
+static mut E_FABS: [u8; 4] = [0; 4];
+static mut E_AUX: [bool; 4] = [false; 4];
+
+/// stands in for `AclEntry::allow`: answers from a symbolic table, records which entry (by the
+/// fabric index stored in it) was consulted
+fn entry_oracle<'a>(e: &AclEntry, _req: &AccessReq<'a>, aux: bool) -> bool
+where
+    'a: 'a,
+{
+    unsafe {
+        let k = (E_CALLS % 4) as usize;
+        E_CALLS += 1;
+        E_FABS[k] = e.fab_idx.map(|f| f.get()).unwrap_or(0);
+        E_AUX[k] = aux;
+        E_ANS[k]
+    }
+}
+
+/// Two fabrics (local indices 1 and 2) with 0..=2 entries each; accessor of any auth mode and
+/// any fabric index 0..=3:
+///  * a passcode-authenticated accessor is allowed without consulting any entry,
+///  * an accessor without a fabric, or with an index no fabric has, is denied without
+///    consulting any entry,
+///  * otherwise only entries stored under the accessor's own fabric are consulted, in order,
+///    until one grants; the answer is the disjunction of their answers.
+#[cfg_attr(kani, kani::proof)]
+#[cfg_attr(kani, kani::unwind(5))]
+#[cfg_attr(kani, kani::stub(AclEntry::allow, entry_oracle))]
+#[cfg_attr(not(kani), test)]
+#[cfg_attr(not(kani), ignore)]
+fn c05_q_fabric_dispatch() {
+    let mut fabrics = Fabrics::new();
+    let (n1, n2) = (any_u8(), any_u8());
+    assume(n1 <= 2 && n2 <= 2);
+    {
+        let f = vok!(fabrics.add_with_post_init(|_| Ok(())), "add-fabric-1");
+        let mut i = 0;
+        while i < n1 {
+            let _ = f.acl.push(AclEntry::new(NonZeroU8::new(1), Privilege::ADMIN, AuthMode::Case));
+            i += 1;
+        }
+    }
+    {
+        let f = vok!(fabrics.add_with_post_init(|_| Ok(())), "add-fabric-2");
+        let mut i = 0;
+        while i < n2 {
+            let _ = f.acl.push(AclEntry::new(NonZeroU8::new(2), Privilege::ADMIN, AuthMode::Case));
+            i += 1;
+        }
+    }
+    let fab = any_u8();
+    assume(fab <= 3);
+    let mode = crate::acl::verif_kani_acl::any_auth();
+    let aux = any_bool();
+    let accessor = Accessor::new(fab, aux, AccessorSubjects::new(any_u64()), Some(mode), crate::acl::verif_kani_acl::uninit_matter());
+    let req = AccessReq::new(&accessor, GenericPath::new(Some(1), Some(6), Some(0)), Access::READ, &[]);
+    let ans = [any_bool(), any_bool(), any_bool(), any_bool()];
+    unsafe {
+        E_CALLS = 0;
+        E_ANS = ans;
+    }
+    let r = fabrics.allow(&req, aux);
+    unsafe {
+        if matches!(mode, AuthMode::Pase) {
+            vcover!(fab == 0);
+            vassert!(r && E_CALLS == 0, "ROLE:passcode-session-is-implicitly-administrator");
+        } else if fab == 0 || fab == 3 {
+            vcover!(fab == 3);
+            vassert!(!r && E_CALLS == 0, "ROLE:accessor-without-existing-fabric-denied");
+        } else {
+            let n = if fab == 1 { n1 } else { n2 } as usize;
+            // expected: consult entries 0.. until the first `true`
+            let mut want = false;
+            let mut calls = 0;
+            while calls < n && !want {
+                want = ans[calls];
+                calls += 1;
+            }
+            vcover!(n == 2 && !ans[0] && ans[1]);
+            vassert!(r == want, "ROLE:fabric-decision-is-disjunction-of-its-own-entries");
+            vassert!(E_CALLS as usize == calls, "ROLE:only-own-fabric-entries-consulted");
+            let mut k = 0;
+            while k < calls {
+                vassert!(E_FABS[k] == fab, "ROLE:entry-of-another-fabric-never-consulted");
+                vassert!(E_AUX[k] == aux, "ROLE:auxiliary-acl-setting-passed-through");
+                k += 1;
+            }
+        }
+    }
+}
